@@ -46,15 +46,23 @@ func NewTCPGroupCtl(portManager *ports.Manager) *TCPGroupCtl {
 func (tgc *TCPGroupCtl) Listen(proxyName string, group string, groupKey string,
 	addr string, port int,
 ) (l net.Listener, realPort int, err error) {
-	tgc.mu.Lock()
-	tcpGroup, ok := tgc.groups[group]
-	if !ok {
-		tcpGroup = NewTCPGroup(tgc)
-		tgc.groups[group] = tcpGroup
-	}
-	tgc.mu.Unlock()
+	for {
+		tgc.mu.Lock()
+		tcpGroup, ok := tgc.groups[group]
+		if !ok {
+			tcpGroup = NewTCPGroup(tgc)
+			tgc.groups[group] = tcpGroup
+		}
+		tgc.mu.Unlock()
 
-	return tcpGroup.Listen(proxyName, group, groupKey, addr, port)
+		ln, p, errRet := tcpGroup.Listen(proxyName, group, groupKey, addr, port)
+		if errRet == errGroupClosed {
+			// the last member left between the lookup and the join; the group has
+			// removed itself, look it up (or create it) again
+			continue
+		}
+		return ln, p, errRet
+	}
 }
 
 // RemoveGroup remove TCPGroup from controller
@@ -76,7 +84,9 @@ type TCPGroup struct {
 	tcpLn    net.Listener
 	lns      []*TCPGroupListener
 	ctl      *TCPGroupCtl
-	mu       sync.Mutex
+	// closed is set when the last member left: the group is dead and must not be joined again
+	closed bool
+	mu     sync.Mutex
 }
 
 // NewTCPGroup return a new TCPGroup
@@ -94,6 +104,10 @@ func NewTCPGroup(ctl *TCPGroupCtl) *TCPGroup {
 func (tg *TCPGroup) Listen(proxyName string, group string, groupKey string, addr string, port int) (ln *TCPGroupListener, realPort int, err error) {
 	tg.mu.Lock()
 	defer tg.mu.Unlock()
+	if tg.closed {
+		err = errGroupClosed
+		return
+	}
 	if len(tg.lns) == 0 {
 		// the first listener, listen on the real address
 		realPort, err = tg.ctl.portManager.Acquire(proxyName, port)
@@ -170,7 +184,8 @@ func (tg *TCPGroup) CloseListener(ln *TCPGroupListener) {
 			break
 		}
 	}
-	if len(tg.lns) == 0 {
+	if len(tg.lns) == 0 && !tg.closed {
+		tg.closed = true
 		close(tg.acceptCh)
 		tg.tcpLn.Close()
 		tg.ctl.portManager.Release(tg.realPort)
